@@ -64,27 +64,27 @@ type Path struct {
 	draws []*Draw
 	nvars int
 
-	reached     map[string]int
-	violations  []Violation
-	obligations int
-	discharged  int
-	unknowns    int
-	steps       int64
-	initSteps   int64
-	maxSteps    int64
-	env         map[string]string
-	notes       map[string]int // intrinsics / overrides hit
-	funcs       map[string]int // functions interpreted (name -> instr count)
-	funcsSeen   map[*ssa.Function]struct{}
-	nondetSeq   int
-	mapOrder    bool // explore map iteration orders
-	depth       int
-	bounds      map[string]int
-	decls       []string
-	concrete    bool       // concrete mode: draws are random values, no solver (translator validation)
-	rng         *rand.Rand
-	failed      []string   // labels of assertions that failed in concrete mode
-	ints        []int64    // values drawn so far (re-used to make equalities likely)
+	reached      map[string]int
+	violations   []Violation
+	obligations  int
+	discharged   int
+	unknowns     int
+	steps        int64
+	initSteps    int64
+	maxSteps     int64
+	env          map[string]string
+	notes        map[string]int // intrinsics / overrides hit
+	funcs        map[string]int // functions interpreted (name -> instr count)
+	funcsSeen    map[*ssa.Function]struct{}
+	nondetSeq    int
+	mapOrder     bool // explore map iteration orders
+	depth        int
+	bounds       map[string]int
+	decls        []string
+	concrete     bool // concrete mode: draws are random values, no solver (translator validation)
+	rng          *rand.Rand
+	failed       []string // labels of assertions that failed in concrete mode
+	ints         []int64  // values drawn so far (re-used to make equalities likely)
 	unsatQueries []string
 }
 
